@@ -323,8 +323,13 @@ pub fn oracle_tree<const N: usize>(c: &TreeCase) -> Viol {
                     if t.root_hash_cached().is_some() {
                         out.push(("C02", at("cached root hash still exposed after an upsert")));
                     }
-                    if t.serialise_page_ranges().is_some() {
-                        out.push(("C02", at("page ranges still available after an upsert")));
+                    match catch_unwind(AssertUnwindSafe(|| t.serialise_page_ranges().is_some())) {
+                        Ok(false) => {}
+                        Ok(true) => out.push(("C02", at("page ranges still available after an upsert"))),
+                        Err(_) => {
+                            out.push(("C02", at("serialise_page_ranges() passed its staleness gate after an upsert and panicked on unhashed pages")));
+                            out.push(("C15", at("serialise_page_ranges() panicked after an upsert instead of returning None")));
+                        }
                     }
                 }
             }
